@@ -79,11 +79,17 @@ def plain(tree):
 
 def build(tree, placement=None, ntables=1, table_order="fwd", free_at=None, seqs=(7, 6), stale=None, table_seq=5,
           second_object_table=False, fileobj_threshold=0x800, version=0x400, slack=4, stale_tree=None,
-          stale_positions=None, fileobj_base=0x40000, fileobj_gap=0, as_image=False):
+          stale_positions=None, fileobj_base=0x40000, fileobj_gap=0, as_image=False, extra_flags=0, object_table_chain=0,
+          chain_shape="chain", extra_replay_log=False):
     """placement: list (per preorder entry) of table index 1..ntables (default round-robin).
     table_order: 'fwd' | 'rev' order of the entries inside each table (rev puts children before parents).
     free_at: set of global positions before which a Free entry is inserted.
     stale: {table index: sequence of a competing stale copy}; the stale copy encodes `stale_tree` (same shape, other values).
+    extra_flags: bits ORed into the flag byte of every value entry (real files carry 0x02 on part of their entries).
+    object_table_chain: k > 0 distributes the object entries round-robin over the first object table and k further ones at
+        0x3000, 0x4000, ...; chain_shape 'chain' links them first -> A -> B ..., 'fan' lists all of them in the first table,
+        'tail' is a chain whose link is the last entry of each table.  extra_replay_log lists a second replay log (0x9000)
+        in the deepest table.
     """
     ents = flatten(tree)
     n = len(ents)
@@ -106,6 +112,8 @@ def build(tree, placement=None, ntables=1, table_order="fwd", free_at=None, seqs
             fileobjs.append((off, asz, data))
             raw = struct.pack("<IQ", len(data), off)
             flags = 1
+        if t != T_NODE:
+            flags |= extra_flags
         return raw, flags
 
     for i, e in enumerate(ents):
@@ -201,7 +209,27 @@ def build(tree, placement=None, ntables=1, table_order="fwd", free_at=None, seqs
                 img.extend(b"\0" * (off + asz - len(img)))
             img[off:off + len(data)] = data
         oe.append((3, off, asz, 1))
-    if second_object_table:
+    if extra_replay_log:
+        r2 = replay()
+        img[0x9000:0x9000 + len(r2)] = r2
+        oe.append((6, 0x9000, 0x1000, 1))
+    if object_table_chain:
+        k = object_table_chain
+        assert 1 <= k <= 5
+        shares = [oe[i::k + 1] for i in range(k + 1)]
+        offs = [0x2000] + [0x3000 + 0x1000 * i for i in range(k)]
+        for i in range(k + 1):
+            links = []
+            if chain_shape == "fan":
+                links = [(1, o, 0x1000, 1) for o in offs[1:]] if i == 0 else []
+            elif i < k:
+                links = [(1, offs[i + 1], 0x1000, 1)]
+            ents_i = (shares[i] + links) if chain_shape == "tail" else (links + shares[i])
+            tb = objtable(ents_i)
+            assert len(tb) <= 0x1000
+            img[offs[i]:offs[i] + len(tb)] = tb
+        ot = b""
+    elif second_object_table:
         half = len(oe) // 2
         first, second = oe[:half], oe[half:]
         ot2 = objtable(second)
@@ -331,4 +359,9 @@ def selfvalidate():
                 for sot in (False, True):
                     assert decode(build(tree, ntables=nt, table_order=order, free_at=free, second_object_table=sot)) == plain(tree)
                     n += 1
+        for k in (1, 2, 3, 5):
+            for shape in ("chain", "fan", "tail"):
+                assert decode(build(tree, ntables=nt, object_table_chain=k, chain_shape=shape, extra_replay_log=True,
+                                    extra_flags=0x02)) == plain(tree)
+                n += 1
     return n
